@@ -47,7 +47,7 @@ def _record_and_judge(args):
     index = {}
     with open(path, "w") as f:
         for t, keys, steps in group:
-            for ln in C.run_script((t, keys, steps)):
+            for ln in (steps if keys is None else C.run_script((t, keys, steps))):   # keys None: lines recorded elsewhere
                 f.write(json.dumps(ln, separators=(",", ":")) + "\n")
                 nlines += 1
                 if ln["op"] != "begin":
@@ -109,6 +109,87 @@ def judge_scripts(ctx: Ctx, jobs, kind_of_case="c08", chunk=None):
             ctx.violation(k, r["clause"], case, kind=kind_of_case)
             vk = ctx.notes.setdefault("rejected_keys", {})
             vk[k] = vk.get(k, 0) + 1
+
+
+QUICK_TEST_FILES = ("tests/test_datastructures.py", "tests/test_wrappers.py", "tests/test_http.py")
+
+
+def record_repo_tests(ctx: Ctx, files):
+    """run the repository's tests under the recording plugin (test process only; /repo untouched)"""
+    import subprocess
+    import sys
+
+    from ..core import REPO, VERIF
+
+    out = os.path.join(ctx.tmp, f"repo-container-sessions-{abs(hash(tuple(files))) % 10**8}.json")
+    env = dict(os.environ, VERIF_TRACE_OUT=out, PYTHONPATH=VERIF + os.pathsep + os.path.join(REPO, "src"),
+               PYTHONDONTWRITEBYTECODE="1")
+    p = subprocess.run([sys.executable, "-m", "pytest", "-q", "-p", "no:cacheprovider", "-p", "harness.pytest_containers_plugin",
+                        "--no-header", "-n", "0", *files], cwd=REPO, env=env, capture_output=True, text=True, timeout=900)
+    tail = (p.stdout + p.stderr)[-1500:]
+    if not os.path.exists(out):
+        raise tlc.MachineryError("recording the repository's tests produced no trace file:\n" + tail)
+    return p, tail, json.load(open(out))
+
+
+def repo_test_traces(ctx: Ctx, files=QUICK_TEST_FILES, min_sessions=100, recorded=None):
+    """code -> spec from the repository's own tests: run the datastructure / wrapper tests under the recording
+    plugin (harness/pytest_containers_plugin.py) and judge every container session with ContainersTrace."""
+    p, tail, data = recorded or record_repo_tests(ctx, files)
+    sessions = [s for s in data["sessions"] if s["lines"]]
+    skipped = dict(data["skipped"])
+    for s in sessions:
+        if s["closed"]:
+            skipped["truncated - " + s["closed"]] = skipped.get("truncated - " + s["closed"], 0) + 1
+    groups = [[] for _ in range(max(1, min(ctx.workers, len(sessions) // 20 or 1)))]
+    nlines = 0
+    for t, s in enumerate(sessions):
+        lines = [{"t": t, "i": 0, "op": "begin"}]
+        for i, ln in enumerate(s["lines"], 1):
+            ln["t"], ln["i"] = t, i
+            lines.append(ln)
+        nlines += len(lines)
+        groups[t % len(groups)].append((t, None, lines))
+    bykind = {}
+    for s in sessions:
+        bykind[s["kind"]] = bykind.get(s["kind"], 0) + 1
+    ctx.notes["repo_tests"] = {"files": list(files), "sessions_judged": len(sessions), "by_kind": bykind,
+                               "calls_judged": nlines - len(sessions),
+                               "constructor_from_state": sum(1 for s in sessions if s["ctor"] == "state"),
+                               "skipped_or_truncated_by_reason": skipped}
+    if len(sessions) < min_sessions:
+        raise tlc.MachineryError(f"only {len(sessions)} container sessions recorded from the repository's tests\n{tail}")
+    args = [(900000 + g, ctx.tmp, grp) for g, grp in enumerate(groups)]
+    if len(args) == 1:
+        outs = [_record_and_judge(args[0])]
+    else:
+        with mp.get_context("fork").Pool(len(args)) as pool:
+            outs = pool.map(_record_and_judge, args, chunksize=1)
+    seen = set()
+    for rj, drift, nl, ncalls, distinct, generated in outs:
+        ctx.model_drift.extend(drift[:50])
+        ctx.traces += nl
+        ctx.count(ncalls)
+        ctx.states += distinct
+        ctx.transitions += generated
+        for r in sorted(rj, key=lambda r: (r["t"], r["i"])):
+            if r["t"] in seen:
+                continue                       # first rejected line of a session; later ones are consequences
+            seen.add(r["t"])
+            s = sessions[r["t"]]
+            k = "RepoTests." + _key(r)
+            case = {"test": s["test"], "lines": s["lines"][: r["i"]], "what": r.get("what")}
+            ctx.violation(k, "RepoTests." + r["clause"], case, kind="repo-tests")
+            vk = ctx.notes.setdefault("rejected_keys", {})
+            vk[k] = vk.get(k, 0) + 1
+    ctx.notes["repo_tests"]["pytest_exit"] = p.returncode
+    if p.returncode != 0 and not seen:
+        # the wrapping must be invisible to the tests: red tests without any rejected session cannot be told
+        # from interference by the plugin -> machinery, never a verdict
+        raise tlc.MachineryError("the repository's tests do not pass under the recording plugin:\n" + tail)
+    for s in sessions[::97]:
+        ctx.sample({"repo_test": s["test"], "kind": s["kind"], "calls": [ln.get("name", ln["op"]) for ln in s["lines"]][:12]})
+    ctx.nontrivial.update(("repo", t) for t in range(len(sessions)))
 
 
 def _par(ctx: Ctx, fns):
@@ -182,6 +263,9 @@ def run(ctx: Ctx):
         "ImmutableOrderedMultiDict, which have no model of their own - only the bare laws are demanded of what the real == "
         "returned: == symmetric, equal => same hash => one set member / one dict key",
     ]
+    files = QUICK_TEST_FILES if q else ("tests",)
+    bg = cf.ThreadPoolExecutor(max_workers=1)
+    recording = bg.submit(record_repo_tests, ctx, files)     # the repository's tests run while TLC model-checks
     # 1. model checking
     w = max(2, ctx.workers // 4)
     mcs = [lambda kind=kind: ctx.model_check(AREA, "MCQ", f"MCQ_{kind}", timeout=900, workers=2 * w if kind == "Headers" else w)
@@ -203,10 +287,24 @@ def run(ctx: Ctx):
     # 3. code -> spec: seeded random scenarios
     jobs += random_jobs(ctx, 320 if q else 3000, 12 if q else 16)
     judge_scripts(ctx, jobs)
+    # 4. code -> spec: the container sessions of the repository's own tests
+    repo_test_traces(ctx, files, recorded=recording.result())
+    bg.shutdown()
 
 
 def replay(ctx: Ctx, data):
     case = data["case"]
+    if data.get("kind") == "repo-tests":
+        node = case["test"].split(" ")[0]
+        ctx.nontrivial.update({("replay", 0), ("replay", 1)})
+        ctx.sample({"test": case["test"]})
+        if node:        # run that test again under the recording plugin and judge all its container sessions
+            repo_test_traces(ctx, (node,), min_sessions=1)
+        else:           # recorded outside a test (import time): judge the recorded lines again
+            lines = [{"t": 0, "i": 0, "op": "begin"}] + [dict(ln, t=0, i=i) for i, ln in enumerate(case["lines"], 1)]
+            for r in _record_and_judge((0, ctx.tmp, [(0, None, lines)]))[0][:1]:
+                ctx.violation("RepoTests." + _key(r), "RepoTests." + r["clause"], case, kind="repo-tests")
+        return
     ctx.nontrivial.update({("replay", 0), ("replay", 1)})
     ctx.sample({"steps": len(case["steps"]), "line": case.get("line")})
     judge_scripts(ctx, [(case["keys"], case["steps"])], kind_of_case=data.get("kind", "c08"))
